@@ -14,7 +14,7 @@ violations); `main(tier, seed)` is a stand-alone driver, `replay(path)` re-valid
 Because the executor uses wall-clock time and real sockets NO verdict depends on timing: the specification states safety /
 value flow / causal order only; liveness (how many duties complete) is reported as statistics; a run in which nothing at all
 completes is INFRA."""
-import collections, json, os, subprocess, time
+import collections, json, os, re, subprocess, time
 from concurrent.futures import ThreadPoolExecutor
 import vlib
 from vlib import log
@@ -74,13 +74,29 @@ CONTROLS = (("WorkflowMC_ctl_noagreement.cfg", "AgreementI", "consensus without 
 # ----------------------------------------------------------------------------------------------------------------------
 # per-trace configuration of the trace specification (N, T, Byz, ExVerify come from the run)
 # ----------------------------------------------------------------------------------------------------------------------
+# When the family runs as a stage of a listed PROPERTY's check only the guards that are that property's statement may raise
+# an alarm (a change that reorders or weakens a mechanism while the property still holds is not that property's violation):
+# ONLY_GUARDS = set of guard names -> every other guard of Workflow.tla is switched off through its constant `Off`.
+ONLY_GUARDS = None
+C01_GUARDS = {"OneRoot", "GroupValid"}
+
+
+def all_guards():
+    txt = open(os.path.join(vlib.SPECS, FAMILY, "Workflow.tla")).read()
+    return sorted(set(re.findall(r'G\("([A-Za-z]+)"', txt)))
+
+
 def cfg_of(t):
     r = t[0]
     byz = "{" + ", ".join(str(b) for b in r["byz"]) + "}"
-    txt = ("SPECIFICATION TraceSpec\nCONSTANTS\n N = %d\n T = %d\n Byz = %s\n ExVerify = %s\n Off = {}\n GFail <- InvFail\n"
+    off, tag = "{}", ""
+    if ONLY_GUARDS is not None:
+        off = "{" + ", ".join('"%s"' % g for g in all_guards() if g not in ONLY_GUARDS) + "}"
+        tag = "_only"
+    txt = ("SPECIFICATION TraceSpec\nCONSTANTS\n N = %d\n T = %d\n Byz = %s\n ExVerify = %s\n Off = %s\n GFail <- InvFail\n"
            "CONSTRAINT Mark\nPOSTCONDITION Report\nCHECK_DEADLOCK FALSE\n"
-           % (r["n"], r["t"], byz, "TRUE" if r["exverify"] else "FALSE"))
-    return ("WorkflowTrace_n%d_t%d_b%s_%s.cfg" % (r["n"], r["t"], "".join(map(str, r["byz"])), r["exverify"]), txt)
+           % (r["n"], r["t"], byz, "TRUE" if r["exverify"] else "FALSE", off))
+    return ("WorkflowTrace_n%d_t%d_b%s_%s%s.cfg" % (r["n"], r["t"], "".join(map(str, r["byz"])), r["exverify"], tag), txt)
 
 
 # ----------------------------------------------------------------------------------------------------------------------
@@ -290,10 +306,32 @@ def conformance(o, scheds, tag):
                 raise vlib.Infra("cluster run %s/%d completed no duty at all (twice): %s" % (tag, i, json.dumps(scheds[i])[:600]))
             else:
                 traces[i] = again
-    for (ti, pos, reason) in v.rejected:
-        if pos < len(traces[ti]) and traces[ti][pos].get("ev") == "Crash":
-            raise vlib.Infra("cluster run %s/%d: the executor process died (rc=%s) after %d events that the specification accepts:\n%s"
-                             % (tag, ti, traces[ti][pos].get("rc"), pos, traces[ti][pos].get("log")))
+    # a run whose process died although everything it recorded is accepted (e.g. testutil/validatormock panics with "close of
+    # closed channel" when two of its slot ticks overlap by an epoch: SlotAttester.Prepare "panics if called more than once"):
+    # the schedule is run again (twice at most); a tree on which it dies every time is infrastructure trouble
+    rej = {ti: (pos, reason) for (ti, pos, reason) in v.rejected}
+    for ti in sorted(rej):
+        tries = 0
+        while ti in rej and rej[ti][0] < len(traces[ti]) and traces[ti][rej[ti][0]].get("ev") == "Crash":
+            pos = rej[ti][0]
+            crash = traces[ti][pos]
+            lines = (crash.get("log") or "?").strip().splitlines() or ["?"]
+            first_line = ([x for x in lines if "panic" in x] or lines)[0][:120]
+            if tries == 2:
+                raise vlib.Infra("cluster run %s/%d: the executor process died three times (rc=%s), last time after %d events that "
+                                 "the specification accepts:\n%s" % (tag, ti, crash.get("rc"), pos, crash.get("log")))
+            tries += 1
+            o.notes.append("cluster run %s/%d: executor process died after %d accepted events (%s); run again" % (tag, ti, pos, first_line))
+            log("[%s] %s/%d: executor process died after %d accepted events (%s), running it again" % (o.pid, tag, ti, pos, first_line))
+            traces[ti] = run_one(o, scheds[ti], "%s_%d_crash%d" % (tag, ti, tries))
+            va = vlib.validate_traces(o.pid, FAMILY, TRACE, cfg_of, [traces[ti]], timeout=900)
+            if va.rejected:
+                rej[ti] = (va.rejected[0][1], va.rejected[0][2])
+            else:
+                del rej[ti]
+                v.accepted.append(ti)
+    v.accepted.sort()
+    v.rejected = sorted((ti, p, why) for ti, (p, why) in rej.items())
     o.schedules += len(scheds)
     o.traces += len(traces)
     o.trace_events += sum(len(t) for t in traces)
@@ -537,10 +575,10 @@ def design_check(o, tier, seed):
     n = 600 if thorough else 200
     jobs = [("WorkflowGen", "WorkflowGen.cfg", dict(simulate="num=%d" % n, depth=80, seed=seed, workers=1)),
             ("WorkflowGen", "WorkflowGen_n3.cfg", dict(simulate="num=%d" % n, depth=80, seed=seed + 1000, workers=1))]
-    jobs += [("WorkflowMC", c, dict(workers=4 if thorough else 2)) for c in mains]
+    jobs += [("WorkflowMC", c, dict(workers=5 if thorough else 2)) for c in mains]
     jobs += [("WorkflowMC", c, dict(workers=1)) for c, _, _ in controls]
     dirs = [vlib.scratch(o.pid, FAMILY) for _ in jobs]
-    ex = ThreadPoolExecutor(max_workers=8 if thorough else 10)
+    ex = ThreadPoolExecutor(max_workers=4 if thorough else 10)
     futs = [ex.submit(vlib.tlc, o.pid, FAMILY, j[0], j[1], timeout=1700, sdir=d, **j[2]) for j, d in zip(jobs, dirs)]
     hists = []
     for f in futs[:2]:
@@ -569,14 +607,59 @@ def design_check(o, tier, seed):
     return hists, join
 
 
-def stage(o, tier, seed):
-    """Run the Workflow family as a stage of a check."""
+def light_stage(o, seed, only=None):
+    """The whole-system stage as part of a property's QUICK tier: the six fixed fault profiles (Byzantine partial
+    signatures through the in-memory exchange and through real libp2p, diverging candidates, retries, late / stopped
+    node) as real app.Run clusters, trace-validated; no design check (./check --grow workflow and the thorough tier
+    run it), three binding controls."""
+    global ONLY_GUARDS
+    t0 = time.time()
+    ONLY_GUARDS = only
+    try:
+        ok = conformance(o, fixed_profiles(seed), "wf")
+        if not o.violations:
+            ms = mutators()
+            if only is not None:    # the controls that break the property's own guards
+                ms = [m for m in ms if m[0] in ("a node broadcasts another root", "invalid aggregate broadcast",
+                                                "invalid aggregate stored")]
+            else:
+                ms = ms[:6]
+            vlib.binding_selftest(o, FAMILY, TRACE, cfg_of, ok, ms, candidates=3)
+    finally:
+        ONLY_GUARDS = None
+    st = [stats(t) for t in ok]
+    tot = lambda k: sum(s[k] for s in st)
+    o.extra["workflow_duties"] = tot("duties")
+    o.extra["workflow_duties_broadcast_by_every_node"] = tot("duties_broadcast_by_every_node")
+    o.extra["workflow_duties_with_diverging_candidates"] = tot("duties_with_diverging_candidates")
+    o.extra["workflow_byzantine_messages"] = sum(sum(s["byzantine_messages"].values()) for s in st)
+    log("[%s] Workflow stage (light): %d cluster runs, %d events; %d duties, %d broadcast by every node, %d with diverging "
+        "candidates, %d Byzantine messages, %.0fs" % (o.pid, len(st), tot("events"), tot("duties"),
+                                                      tot("duties_broadcast_by_every_node"),
+                                                      tot("duties_with_diverging_candidates"),
+                                                      o.extra["workflow_byzantine_messages"], time.time() - t0))
+
+
+def stage(o, tier, seed, only=None):
+    """Run the Workflow family as a stage of a check (only: see ONLY_GUARDS)."""
+    global ONLY_GUARDS
+    ONLY_GUARDS = only
+    try:
+        _stage(o, tier, seed, only)
+    finally:
+        ONLY_GUARDS = None
+
+
+def _stage(o, tier, seed, only):
     t0 = time.time()
     thorough = tier == "thorough"
     hists, join_design = design_check(o, tier, seed)
+    if thorough:        # the cluster runs are wall-clock: they do not share the machine with 30 TLC threads
+        join_design()
+        join_design = lambda: None
     r = vlib.rng(seed, "workflow")
-    gen = from_hists(r, hists[0], hists[1], 16 if thorough else 3)
-    rnd = fixed_profiles(seed) + random_profiles(r, 40 if thorough else 3)
+    gen = from_hists(r, hists[0], hists[1], 30 if thorough else 3)
+    rnd = fixed_profiles(seed) + random_profiles(r, 84 if thorough else 3)
     o.extra["workflow_fault_plans_from_tlc_histories"] = len(gen)
     ok = conformance(o, gen, "gen")
     if not o.violations:
@@ -584,6 +667,9 @@ def stage(o, tier, seed):
     join_design()
     if not o.violations:
         ms = mutators()
+        if only is not None:
+            ms = [m for m in ms if m[0] in ("a node broadcasts another root", "invalid aggregate broadcast",
+                                            "invalid aggregate stored")]
         nself = len(o.selftests)
         vlib.binding_selftest(o, FAMILY, TRACE, cfg_of, ok, ms, candidates=3)
         if len(o.selftests) - nself < len(ms) - 2:
